@@ -3,7 +3,9 @@ import ScrutModel.Lemmas.Config
 # C16 — Config precedence: command line > test case > document defaults > format
 
 `effectiveTC cli inline doc cliDoc fmt scrutEnv` composes the layers exactly in the order the code
-does (parser, test command, executor). `firstSome` picks the first layer that sets a value.
+does (parser, test command; the executor adds no layer since fix 0515072 -- it used to apply the
+defaults of the document that is run to every test case, also to those of prepended and appended
+documents; the hypotheses on `cliDoc` are kept so that the statements read as before). `firstSome` picks the first layer that sets a value.
 The command line cannot set environment variables or per-test defaults (`cliDoc.defaults` is
 empty: `to_document_config` only sets `shell` and `total_timeout`).
 -/
